@@ -56,6 +56,12 @@ func (s scen) argsSource() string {
 	case "closure-counter":
 		// two spawned calls increment a shared counter under a channel used as a lock; both results and the total are exact
 		return "total := 0\nlock := chan(1)\nfunc inc(k, d) { lock <- 1\n total = total + d\n v := total\n <-lock\n return k }\n" + start("inc", "1, 10", "t1") + start("inc", "2, 5", "t2") + "got(\"w\", " + wait("t1") + ")\ngot(\"w\", " + wait("t2") + ")\ngot(\"n\", total)\n\"done\"\n"
+	case "each-spawn":
+		// the spawn method itself used as a callback: each job reaches its own spawned call although the
+		// builtin that drives the callback reuses its argument buffer
+		return "out := chan(3)\nfunc worker(j) { out <- j\n return j }\n[1, 2, 3].each(worker.spawn)\na := <-out\nb := <-out\nc := <-out\ngot(\"n\", sorted([a, b, c]))\n\"done\"\n"
+	case "map-spawn":
+		return "func worker(j) { return j * 10 }\nts := [1, 2, 3].map(worker.spawn)\ngot(\"n\", ts.map(func(t) { return t.wait() }))\n\"done\"\n"
 	case "error":
 		// wait() returns the spawned call's error
 		return "func boom(a, b) { return [a][b] }\n" + start("boom", "1, 5", "t") + "r := try(func() { return " + wait("t") + " }, func(e) { return \"caught\" })\ngot(\"w\", r)\n\"done\"\n"
@@ -172,6 +178,8 @@ func (s scen) judge(x *dsched.Exec, st *state) (violation, key string) {
 			"reassign":        `"w":[1, "s"] "x":2`,
 			"closure-counter": `"w":1 "w":2 "n":15`,
 			"error":           `"w":"caught"`,
+			"each-spawn":      `"n":[1, 2, 3]`,
+			"map-spawn":       `"n":[10, 20, 30]`,
 		}[s.Args]
 		if s.Args == "error" && s.Spawn == "go" {
 			// the go statement has no handle: the error of the spawned call is not observable through wait()
@@ -274,6 +282,7 @@ func scenarios(thorough bool) []scen {
 			out = append(out, scen{Spawn: sp, Args: a})
 		}
 	}
+	out = append(out, scen{Spawn: "fnspawn", Args: "each-spawn"}, scen{Spawn: "fnspawn", Args: "map-spawn"})
 	if !thorough {
 		for _, sr := range [][2]int{{1, 1}, {1, 2}, {2, 1}} {
 			for _, b := range []int{0, 1} {
